@@ -1,7 +1,9 @@
 ---- MODULE BoundsModel ----
 (* model A for C08.  Families: "extend" (every history of Extend calls up to MaxLen over a palette mixing
    XY/XYZ/XYM/XYZM geometries, from every initial layout), "gc" (collection trees nested to depth 2 with
-   mixed layouts and empty members), "overlap" (every pair of small boxes / box and point).
+   mixed layouts and empty members), "extgc" (Extend called directly with collection trees), "geo" (one geometry, every
+   Go type), "set" (Set / SetCoords inside an Extend history), "overlap" (pairs of small boxes of all four layouts, with
+   empty dimensions, under every layout argument), "ovpt" (box and point).
    Laws checked on the model: the tight box does not depend on the order of extension; Overlap is symmetric. *)
 EXTENDS Bounds, Json, TLC
 CONSTANTS Family, MaxLen, Rich
@@ -15,28 +17,65 @@ T0 == {G("XY", <<Cd("XY", 1)>>), G("XYZ", <<Cd("XYZ", 0), Cd("XYZ", 3)>>), G("XY
        G("XYZM", <<Cd("XYZM", 4)>>), G("XYZ", <<>>), G("XY", <<>>)}
 T1 == {[gc |-> s] : s \in SeqsUpTo(T0, 2)}
 T2 == {[gc |-> s] : s \in SeqsUpTo(T0 \cup T1, 2)}
+\* ---- direct Bounds.Extend(collection) calls: a palette of leaves and trees (nested to depth 3, empty members, z+m mixes)
+LXY == G("XY", <<Cd("XY", 1)>>)
+LZ == G("XYZ", <<Cd("XYZ", 0), Cd("XYZ", 3)>>)
+LM == G("XYM", <<Cd("XYM", 2)>>)
+LZM == G("XYZM", <<Cd("XYZM", 4)>>)
+Gc(s) == [gc |-> s]
+PG == {LZ, LM, Gc(<<>>), Gc(<<LZ, LM>>), Gc(<<Gc(<<LM>>), G("XYZ", <<>>)>>), Gc(<<LXY, Gc(<<Gc(<<LZM>>)>>)>>)}
+\* ---- single geometries of every Go type (ty selects the type in the recorder)
+GeoNodes == Geoms \cup T0 \cup T1 \cup {t \in PG : "gc" \in DOMAIN t} \cup (IF Rich THEN T2 ELSE {})
+\* ---- Set / SetCoords histories
+SG == {G("XY", <<Cd("XY", 0), Cd("XY", 2)>>), G("XYZ", <<Cd("XYZ", 0), Cd("XYZ", 2)>>), G("XYM", <<Cd("XYM", 1), Cd("XYM", 4)>>),
+       G("XYZM", <<Cd("XYZM", 3), Cd("XYZM", 4)>>)} \cup (IF Rich THEN {G("XYZ", <<>>), Gc(<<LZ, LM>>)} ELSE {})
+SetBoxes == {<<(<<1, 1, 1, 1>>), (<<3, 3, 3, 3>>)>>} \cup (IF Rich THEN {<<(<<0, 2, 4, 1>>), (<<0, 2, 4, 1>>)>>, <<(<<2, 0, 0, 3>>), (<<2, 4, 1, 4>>)>>} ELSE {})
+\* ---- overlap tests: a box is [l, min, max]; E is the interval NewBounds leaves in a dimension nothing was fed into
+E == <<INF, -INF>>
 Ivs == IF Rich THEN {<<0, 0>>, <<0, 1>>, <<0, 2>>, <<1, 1>>, <<1, 2>>, <<2, 2>>, <<0, 3>>, <<3, 3>>}
        ELSE {<<0, 0>>, <<0, 1>>, <<0, 2>>, <<1, 1>>, <<1, 2>>, <<2, 2>>}
-Box(n) == {[min |-> [k \in 1..n |-> iv[k][1]], max |-> [k \in 1..n |-> iv[k][2]]] : iv \in [1..n -> Ivs]}
-          \cup {[min |-> [k \in 1..n |-> INF], max |-> [k \in 1..n |-> -INF]]}
-Ivs3 == {<<0, 0>>, <<0, 2>>, <<1, 2>>}
-Box3 == {[min |-> [k \in 1..3 |-> iv[k][1]], max |-> [k \in 1..3 |-> iv[k][2]]] : iv \in [1..3 -> Ivs3]}
-        \cup {[min |-> [k \in 1..3 |-> INF], max |-> [k \in 1..3 |-> -INF]]}
+I2 == IF Rich THEN {<<0, 0>>, <<1, 2>>, <<0, 1>>} ELSE {<<0, 0>>, <<1, 2>>}
+Str(l) == Len(Dims(l))
+BoxOf(l, iv) == [l |-> l, min |-> [k \in 1..Str(l) |-> iv[k][1]], max |-> [k \in 1..Str(l) |-> iv[k][2]]]
+BoxesL(l, I) == {BoxOf(l, iv) : iv \in [1..Str(l) -> I]}
+\* XY in detail (every relation of two intervals, empty dimensions); the quick tier keeps one dimension on a short list
+I2s == {<<0, 1>>, <<1, 2>>, E}
+BoxXY == IF Rich THEN BoxesL("XY", Ivs \cup {E})
+         ELSE {BoxOf("XY", iv) : iv \in {iv \in [1..2 -> Ivs \cup {E}] : iv[1] \in I2s \/ iv[2] \in I2s}}
+\* higher layouts: two (three) intervals per dimension, the canonical empty box, and boxes whose Z or M interval is still E
+Uni(l, v) == [k \in 1..Str(l) |-> v]
+WithE(l, I) == IF Rich THEN {[iv EXCEPT ![k] = E] : iv \in [1..Str(l) -> {<<0, 0>>, <<1, 2>>}], k \in 3..Str(l)}
+               ELSE {[Uni(l, v) EXCEPT ![k] = E] : v \in I, k \in 3..Str(l)} \cup {[iv EXCEPT ![Str(l)] = E] : iv \in [1..Str(l) -> I]}
+BoxHi(l) == BoxesL(l, I2) \cup {BoxOf(l, iv) : iv \in WithE(l, I2)} \cup {BoxOf(l, Uni(l, E))}
+BoxFew(l) == IF Rich THEN BoxesL(l, {<<0, 0>>, <<1, 2>>}) ELSE {BoxOf(l, Uni(l, <<0, 0>>)), BoxOf(l, Uni(l, <<1, 2>>))}
+\* layout arguments that address a box layout by position or at least by name (the others are recorded with BoxFew only)
+ArgsFor(bl) == {l \in Layouts : CoversL(l, bl)}
 
 VARIABLE c
 Init ==
   CASE Family = "extend" -> \E l0 \in Layouts \cup {"No"}, gs \in SeqsUpTo(Geoms, MaxLen) : c = [fam |-> "extend", l0 |-> l0, gs |-> gs]
+    [] Family = "extgc" -> \E l0 \in Layouts \cup {"No"}, gs \in SeqsUpTo(PG, MaxLen) : c = [fam |-> "extend", l0 |-> l0, gs |-> gs]
     [] Family = "gc" -> \E t \in T2 : c = [fam |-> "gc", t |-> t]
+    [] Family = "geo" -> \E t \in GeoNodes, ty \in 0..7 : c = [fam |-> "geo", t |-> t, ty |-> ty]
+    [] Family = "set" -> \E l0 \in Layouts \cup {"No"}, op \in {"Set", "SetCoords"}, pre \in SeqsUpTo(SG, 1), post \in SeqsUpTo(SG, MaxLen), sb \in SetBoxes :
+                           c = [fam |-> "set", l0 |-> l0, op |-> op, pre |-> pre, post |-> post, smin |-> sb[1], smax |-> sb[2]]
     [] Family = "clone" -> \E l0 \in Layouts \cup {"No"}, gs \in SeqsUpTo(Geoms, MaxLen), m1 \in Geoms, m2 \in Geoms, side \in {1, 2} :
                              c = [fam |-> "clone", l0 |-> l0, gs |-> gs, m1 |-> m1, m2 |-> m2, first |-> side]
     [] Family = "overlap" ->
-         \/ \E b1 \in Box(2), b2 \in Box(2) : c = [fam |-> "overlap", n |-> 2, l |-> "XY", b1 |-> b1, b2 |-> b2]
-         \/ \E b1 \in Box3, b2 \in Box3, l \in {"XY", "XYZ", "XYM"} : c = [fam |-> "overlap", n |-> 3, l |-> l, b1 |-> b1, b2 |-> b2]
+         \/ \E b1 \in BoxXY, b2 \in BoxXY : c = [fam |-> "overlap", l |-> "XY", b1 |-> b1, b2 |-> b2]
+         \/ \E bl \in Layouts \ {"XY"} : \E b1 \in BoxHi(bl), b2 \in BoxHi(bl), l \in ArgsFor(bl) : c = [fam |-> "overlap", l |-> l, b1 |-> b1, b2 |-> b2]
+         \/ \E bl1 \in Layouts, bl2 \in Layouts, l \in Layouts : \E b1 \in BoxFew(bl1), b2 \in BoxFew(bl2) : c = [fam |-> "overlap", l |-> l, b1 |-> b1, b2 |-> b2]
+    [] Family = "ovpt" ->
+         \/ \E b \in BoxesL("XY", Ivs \cup {E}) : c = [fam |-> "ovpt", l |-> "XY", b |-> b, pv |-> <<-1, 0, 1, 2, 3>>]
+         \/ \E bl \in {"XYZ", "XYM"} : \E b \in BoxHi(bl), l \in ArgsFor(bl) : c = [fam |-> "ovpt", l |-> l, b |-> b, pv |-> <<-1, 0, 1, 2, 3>>]
+         \/ \E b \in BoxHi("XYZM"), l \in Layouts : c = [fam |-> "ovpt", l |-> l, b |-> b, pv |-> <<0, 1, 3>>]
+         \/ \E bl \in Layouts, l \in Layouts : \E b \in BoxFew(bl) : c = [fam |-> "ovpt", l |-> l, b |-> b, pv |-> <<0, 1, 3>>]
 Next == FALSE /\ UNCHANGED c
-Str(l) == Len(Dims(l))
 Laws ==
   /\ (Family = "extend" => Tight(c.l0, c.gs) = Tight(c.l0, RevSeq(c.gs))
                            /\ (Len(c.gs) > 0 => Tight(c.l0, c.gs).l = Join(Tight(c.l0, SubSeq(c.gs, 1, Len(c.gs) - 1)).l, c.gs[Len(c.gs)].l)))
-  /\ (Family = "overlap" => Overlap(Str(c.l), c.b1.min, c.b1.max, c.b2.min, c.b2.max) = Overlap(Str(c.l), c.b2.min, c.b2.max, c.b1.min, c.b1.max))
+  /\ (Family = "extgc" => Tight(c.l0, LeavesAll(c.gs)) = Tight(c.l0, LeavesAll(RevSeq(c.gs))))
+  /\ (Family = "overlap" /\ AgreesWith(c.l, c.b1.l) /\ AgreesWith(c.l, c.b2.l)
+        => Overlap(Str(c.l), c.b1.min, c.b1.max, c.b2.min, c.b2.max) = Overlap(Str(c.l), c.b2.min, c.b2.max, c.b1.min, c.b1.max))
 Emit == PrintT(<<"CASE", ToJson(c)>>)
 ====
